@@ -37,7 +37,8 @@ SetSum(S) == Cardinality(S)
 NoHdr == [run |-> 0, planner |-> "none", mode |-> "none", lvs |-> 1, maxd |-> 0, rad |-> 0, tol |-> 0,
           bias |-> "p", seeded |-> FALSE]
 NoQ == [sc |-> <<>>, goalf |-> <<>>, pidx |-> <<>>]
-NoApi == [pd |-> 0, T |-> 0, road |-> <<>>, gvalid |-> TRUE, road0 |-> 0, q |-> NoQ, st1 |-> <<>>, inited |-> FALSE, panicked |-> FALSE]
+NoApi == [pd |-> 0, T |-> 0, road |-> <<>>, gvalid |-> TRUE, road0 |-> 0, q |-> NoQ, st1 |-> <<>>, inited |-> FALSE, panicked |-> FALSE,
+          ninst |-> 0]     \* number of installations (setup / set_problem_definition) so far
 
 Init ==
   /\ l = 1 /\ hdr = NoHdr /\ trees = <<<<>>, <<>>>> /\ acc = {} /\ api = NoApi /\ nviol = 0
@@ -136,11 +137,14 @@ EvSetup(e) ==
        \cup L(\E i \in 1 .. Len(e.roots) : e.roots[i].tr = 1 /\ ~e.roots[i].isstart, "C15/root")
        \cup L(\E i \in 1 .. Len(e.roots) : e.roots[i].tr = 2 /\ ~e.roots[i].isgoal, "C15/root")
        \cup L(hdr.planner # "prm" /\ e.kind # "panic" /\ ~(\E i \in 1 .. Len(e.roots) : e.roots[i].tr = 1), "C15/root")
-       \cup L(hdr.planner = "prm" /\ Len(e.snap.roadmap) # 0, "C08/latest-problem")
+       \* a roadmap kept across setup is only a defect when it is wrong for what was just installed (a
+       \* milestone the new checker rejects or the new bounds exclude, a link the new checker blocks)
+       \cup L(hdr.planner = "prm" /\ Len(e.snap.roadmap) # 0 /\ e.stale, "C08/latest-problem")
   IN /\ Report(v)
      /\ trees' = SnapTrees(e.snap)
      /\ acc' = {}
      /\ api' = [pd |-> e.pd, T |-> 0, road |-> SnapRoad(e.snap), road0 |-> 0, q |-> NoQ, st1 |-> api.st1, inited |-> TRUE, panicked |-> api.panicked \/ e.kind = "panic",
+                 ninst |-> api.ninst + 1,
                  gvalid |-> \A i \in 1 .. Len(e.roots) : e.roots[i].tr = 2 => e.roots[i].valid]
      /\ nviol' = nviol + Cardinality(v)
      \* a problem may live on a different space: resolution and unit are those of the installed one
@@ -148,7 +152,7 @@ EvSetup(e) ==
 
 EvSetPd(e) ==
   /\ Report(L(e.kind = "panic", "C08/panic@" \o e.site))
-  /\ api' = [api EXCEPT !.pd = e.pd, !.panicked = api.panicked \/ e.kind = "panic"]
+  /\ api' = [api EXCEPT !.pd = e.pd, !.panicked = api.panicked \/ e.kind = "panic", !.ninst = api.ninst + 1]
   /\ nviol' = nviol + (IF e.kind = "panic" THEN 1 ELSE 0)
   /\ UNCHANGED <<hdr, trees, acc>>
 
@@ -318,9 +322,15 @@ CommonRetLabels(e) ==
  \cup L(~api.inited /\ e.kind \notin {"uninit", "panic"}, "C08/outcome")
  \cup L(api.inited /\ e.kind = "uninit", "C08/outcome")
  \cup L(api.inited /\ ~e.start_valid /\ e.kind \in {"ok", "timeout", "nosolution"}, "C01/root-start")
+ \cup L(api.inited /\ ~e.start_valid /\ e.kind \in {"ok", "timeout", "nosolution"}, "C08/outcome")
  \cup L(e.kind = "invalidstart" /\ e.start_valid, "C08/outcome")
  \cup (IF e.kind = "ok" THEN
           L(Len(e.path) = 0, "C02/nonempty")
+     \* a stale answer: after a re-installation the path does not fit what is installed now (it does not
+     \* start at the installed start, does not end in the installed goal, runs through a state the
+     \* installed checker rejects, or claims a goal that checker seals off)
+     \cup L(api.ninst > 1 /\ (~e.first_is_start \/ ~e.last_goal \/ e.feas = 0 \/ \E k \in 1 .. Len(e.path) : ~e.pvalid[k]),
+            "C08/latest-problem")
      \cup L(~e.first_is_start, "C02/first")
      \cup L(~e.last_goal, "C02/last-goal")
      \cup L(Len(e.path) >= 1 /\ ~e.pvalid[1], "C01/path-start-invalid")
@@ -370,6 +380,25 @@ EvStream(e) ==
          IN /\ Report(v)
             /\ nviol' = nviol + Cardinality(v)
             /\ UNCHANGED <<hdr, trees, acc, api>>
+
+(***************************************************************************)
+(* C07, timing independence: a third same-seed instance is driven through  *)
+(* the same calls on a slower clock.  Per installation epoch the flat      *)
+(* sequence of planning iterations (sample drawn, nodes pushed, rewirings) *)
+(* of one instance must be a prefix of the other's: time decides how many  *)
+(* iterations complete, never what an iteration does.                      *)
+(***************************************************************************)
+PrefixOf(s, t) == Len(s) <= Len(t) /\ \A i \in 1 .. Len(s) : s[i] = t[i]
+EvTiming(e) ==
+  LET v ==  L(hdr.seeded /\ Len(e.a) # Len(e.b), "C07/timing")
+       \* an epoch is comparable when every earlier epoch ran identically in both instances (otherwise
+       \* the generator legitimately stands at a different position when the epoch begins)
+       \cup L(hdr.seeded /\ Len(e.a) = Len(e.b) /\
+              (\E k \in 1 .. Len(e.a) : (\A j \in 1 .. (k - 1) : e.a[j] = e.b[j])
+                                        /\ (~PrefixOf(e.a[k], e.b[k])) /\ (~PrefixOf(e.b[k], e.a[k]))), "C07/timing")
+  IN /\ Report(v)
+     /\ nviol' = nviol + Cardinality(v)
+     /\ UNCHANGED <<hdr, trees, acc, api>>
 
 (***************************************************************************)
 (* Python bindings (C19, C20): besides the stream comparison above (tag     *)
@@ -427,6 +456,7 @@ Next ==
          [] e.ev = "query" -> EvQuery(e)
          [] e.ev = "stream" -> EvStream(e)
          [] e.ev = "pair" -> EvPair(e)
+         [] e.ev = "timing" -> EvTiming(e)
          [] e.ev = "probe" -> EvProbe(e)
          [] e.ev \in {"pyprm", "pyfault", "pywrap"} -> EvPy(e)
 
